@@ -109,3 +109,76 @@ Example bound_cut_keeps_anonymous_early_bound :
   let m2 := go_ResponseMeta_BoundCutFor m1 60000 102%N in
   go_ResponseMeta_Cut m2 = (6500, 0%N).
 Proof. reflexivity. Qed.
+
+(* ------------------------------------------------------------------ *)
+(** * Lineage folding of a sub-query: subQueryLineage.inherit (middleware/cache/cache.go),
+      translated from the AST (session 5; `nonnil_pointers`: the translation describes
+      the method on a lineage whose child meta exists -- a sub-query that ran; with a nil
+      child the Go method returns at once and nothing is folded, which is the model's
+      "not used" branch).  The model's [chase] writes `bound meta child` where the code
+      calls `lineage.inherit()`. *)
+
+Definition lin_parent (l : T_subQueryLineage) : option Z :=
+  oz_of_go (go_ResponseMeta_CutUntil (T_subQueryLineage_parent l)).
+Definition lin_child (l : T_subQueryLineage) : option Z :=
+  oz_of_go (go_ResponseMeta_CutUntil (T_subQueryLineage_child l)).
+
+(* the first call folds the child's bound into the parent exactly as the model's [bound]
+   does; the child is left alone; the flag is set *)
+Lemma gen_lineage_inherit : forall l,
+  let l' := go_subQueryLineage_inherit l in
+  lin_parent l' = (if T_subQueryLineage_inherited l then lin_parent l else bound (lin_parent l) (lin_child l))
+  /\ T_subQueryLineage_child l' = T_subQueryLineage_child l
+  /\ T_subQueryLineage_inherited l' = true.
+Proof.
+  intros l. unfold go_subQueryLineage_inherit. cbn.
+  destruct (T_subQueryLineage_inherited l) eqn:E; cbn.
+  - rewrite E. repeat split; reflexivity.
+  - repeat split. unfold lin_parent, lin_child. cbn.
+    change (T_responseCut_deadline (T_ResponseMeta_cut (T_subQueryLineage_child l)))
+      with (go_ResponseMeta_CutUntil (T_subQueryLineage_child l)).
+    apply gen_bound_cut_for.
+Qed.
+
+(* idempotent (the code's `inherited` flag): a terminal denial that is consumed by the generic
+   merge and again by the branch adopting its rcode folds once -- and the model, which has no
+   flag, may write the fold twice, because [bound] is idempotent in its second argument *)
+Lemma gen_lineage_inherit_idem : forall l,
+  go_subQueryLineage_inherit (go_subQueryLineage_inherit l) = go_subQueryLineage_inherit l.
+Proof.
+  intros l. unfold go_subQueryLineage_inherit at 1.
+  destruct (gen_lineage_inherit l) as (_ & _ & Hf). cbn in Hf. rewrite Hf. reflexivity.
+Qed.
+
+Lemma bound_twice m c : bound (bound m c) c = bound m c.
+Proof.
+  unfold bound. destruct m as [a|], c as [b|]; cbn; try reflexivity.
+  - destruct (Z.ltb_spec b a); cbn; [rewrite Z.ltb_irrefl; reflexivity|].
+    destruct (Z.ltb_spec b a); [lia|reflexivity].
+  - rewrite Z.ltb_irrefl. reflexivity.
+Qed.
+
+(* the parent only moves earlier, and ends up no later than the child's bound *)
+Lemma gen_lineage_inherit_min : forall l d,
+  T_subQueryLineage_inherited l = false ->
+  lin_child l = Some d ->
+  exists p, lin_parent (go_subQueryLineage_inherit l) = Some p /\ p <= d
+            /\ (forall p0, lin_parent l = Some p0 -> p <= p0).
+Proof.
+  intros l d Hi Hc. destruct (gen_lineage_inherit l) as (Hp & _ & _). cbn in Hp.
+  rewrite Hi, Hc in Hp. rewrite Hp. unfold bound.
+  destruct (lin_parent l) as [a|]; cbn.
+  - destruct (Z.ltb_spec d a); eexists; (split; [reflexivity|]); split; try lia; intros p0 [= <-]; lia.
+  - eexists. split; [reflexivity|]. split; [lia|]. intros p0 [=].
+Qed.
+
+Example lineage_inherit_example :
+  let wp := (mk_T_RecursionWorkPolicy 0 0 0 0 0 0 0 0 0)%N in
+  let parent := mk_T_ResponseMeta (mk_T_responseCut 9000 7%N) wp in
+  let child := mk_T_ResponseMeta (mk_T_responseCut 6500 0%N) wp in
+  let l1 := go_subQueryLineage_inherit (mk_T_subQueryLineage parent child false) in
+  go_ResponseMeta_Cut (T_subQueryLineage_parent l1) = (6500, 0%N)
+  /\ go_subQueryLineage_inherit l1 = l1
+  /\ go_ResponseMeta_Cut (T_subQueryLineage_parent
+        (go_subQueryLineage_inherit (mk_T_subQueryLineage parent child true))) = (9000, 7%N).
+Proof. repeat split; reflexivity. Qed.
